@@ -305,6 +305,9 @@ def compare(fmt, model, ob, out):
         byname = dict(ob[1])
         pairs = [((n, t), (n, byname.get(n))) for n, t in model[1]]
     for (n, t), (_n2, t2) in pairs:
+        if 'ctc-exact' in fmt.fields and t2 != t:
+            out.append(Fail('constraint-not-identical', {'source': sh.tree_str(t), 'read': sh.tree_str(t2) if t2 is not None else None}))
+            break
         if t2 is None or not ctc_equivalent(t, t2):
             out.append(Fail('constraint-not-equivalent', {'source': sh.tree_str(t), 'read': sh.tree_str(t2) if t2 is not None else None}))
             break
